@@ -291,6 +291,6 @@ def nestedSame [BEq N] (ref : N) (rich simple : Coords N) : Bool :=
     simple.all (fun sp => sp.1 == ref ||
       (cellsOf rich ++ cellsOf simple).all (fun cell =>
         ((targets ref rich ch sp.1).filter (fun rp => (coordsOf rich rp).contains cell)).length
-          == (if sp.2.contains cell then 1 else 0)))
+          == (if (coordsOf simple sp.1).contains cell then 1 else 0)))
 
 end CogentModel.Optimiser
